@@ -298,6 +298,10 @@ def gen_plan(rng, tier="quick", prop="C18"):
                 steps.append({"op": "call", "slot": s2, "call": _gen_call(rng, metas[s2], force_sel="plain"), "both": False})
             if st["call"]["m"] in O.PARTITIONS and r["nd"] >= 2:
                 known_shapes.append((r["nf"], r["nd"]))
+                if meta["backing"] != "dask" and rng.random() < 0.3:
+                    # the object is edited by much less than any discretisation step and the same call is made again
+                    steps.append({"op": "edit", "slot": slot, "edit": {"k": "values_nudge", "rel": rng.choice([1e-3, 1e-4, 1e-6]), "seed": rng.randrange(1000), "share": rng.choice([0.05, 0.2, 0.5])}})
+                    steps.append(dict(st))
         elif kind == "bad":
             steps.append({"op": "bad", "slot": slot, "bad": _gen_bad(rng, meta)})
             if rng.random() < 0.5:
@@ -317,6 +321,9 @@ def gen_plan(rng, tier="quick", prop="C18"):
                 shape = rng.choice(GRID_FLIPS[rng.choice(sorted(GRID_FLIPS))])
             steps.append({"op": "native", "shape": list(shape), "seed": rng.randrange(10**6), "ihmax": rng.choice([100, 100, 50, 200, 20]),
                           "flat": rng.random() < 0.15})
+            if not steps[-1]["flat"] and rng.random() < 0.35:
+                # ... and straight afterwards a marginally different version of the same spectrum
+                steps.append(dict(steps[-1], nudge={"rel": rng.choice([1e-4, 1e-5, 1e-3]), "seed": rng.randrange(1000)}))
             known_shapes.append(tuple(shape))
         elif kind == "reader" and rng.random() < 0.25 and any(m["kind"] == "ds" and any(k == "site" for k, _ in m["recipe"]["dims"]) and m["recipe"]["nd"] >= 2 for m in metas.values()):
             # read_dataset on a dataset that already is in the wavespectra convention
@@ -479,7 +486,7 @@ def shape(plan):
         elif op == "edit":
             parts.append(f"edit{st['slot']}:{st['edit']['k']}:{st['edit'].get('how', st['edit'].get('f', ''))}")
         elif op == "native":
-            parts.append(f"native:{st['shape']}:{st['ihmax']}{':flat' if st.get('flat') else ''}")
+            parts.append(f"native:{st['shape']}:{st['ihmax']}{':flat' if st.get('flat') else ''}{':nudged' if st.get('nudge') else ''}")
         elif op == "readsample":
             parts.append(f"readsample:{st.get('reader', 'triaxys-gen')}:{st.get('file', (st.get('nf'), st.get('ddir'), st.get('directional')))}")
         elif op == "construct":
@@ -656,11 +663,18 @@ def call_reader(nat, fmt, fn):
     return f(nat)
 
 
-def native_array(shape, seed, flat=False):
+def native_array(shape, seed, flat=False, nudge=None):
     if flat:
         return np.full(tuple(shape), float(seed % 7), dtype="float32")   # flat spectrum: the watershed's early-return path
     rng = np.random.default_rng(seed)
-    return D._bumps(rng, shape[0], shape[1], True, 1)[0].astype("float32")
+    a = D._bumps(rng, shape[0], shape[1], True, 1)[0].astype("float32")
+    if nudge:
+        # the same spectrum up to changes far below any discretisation step (equal-valued bins are no longer exactly equal)
+        r2 = np.random.default_rng(nudge["seed"])
+        mask = r2.random(a.shape) < 0.5
+        sign = np.where(r2.random(a.shape) < 0.5, -1.0, 1.0)
+        a = np.where(mask, a * (1.0 + nudge["rel"] * sign), a).astype("float32")
+    return a
 
 
 def _mat(v):
@@ -1054,7 +1068,7 @@ def ref_handler(req):
         elif kind == "native":
             from wavespectra.partition import specpart
 
-            res = specpart.partition(native_array(req["shape"], req["seed"], req.get("flat", False)), req["ihmax"])
+            res = specpart.partition(native_array(req["shape"], req["seed"], req.get("flat", False), req.get("nudge")), req["ihmax"])
         elif kind == "reader":
             res = call_reader(F.thaw(req["obj"]), req["fmt"], req["fn"])
         elif kind == "readfile":
@@ -1412,12 +1426,12 @@ def execute(arg):
                 elif op == "native":
                     from wavespectra.partition import specpart
 
-                    a = native_array(st["shape"], st["seed"], st.get("flat", False))
+                    a = native_array(st["shape"], st["seed"], st.get("flat", False), st.get("nudge"))
                     store.objs[f"native{i}"] = a
                     if prop == "C17":
                         before = snapshot_all()
                     res_c = cmp.canon(specpart.partition(a, st["ihmax"]))
-                    req = {"kind": "native", "shape": st["shape"], "seed": st["seed"], "ihmax": st["ihmax"], "flat": st.get("flat", False)}
+                    req = {"kind": "native", "shape": st["shape"], "seed": st["seed"], "ihmax": st["ihmax"], "flat": st.get("flat", False), "nudge": st.get("nudge")}
                     sim.count("native_calls")
                 elif op == "reader":
                     if sl.kind not in ("native", "ds"):
